@@ -82,9 +82,25 @@ RULE = ("one table case per estimator class of the package (all, every run); tre
         "(every key of every depth-2 composition of the composite classes, quick: seed-rotated slice) + random compositions to depth 3 "
         "with random histories of get/set/clone/apply + malformed keys. distinct by driver line; non-trivial = class observed "
         "dynamically (table) / at least one successful set_params or clone (tree)")
-LEVEL_TEXT = "proof (model) + translation (tables regenerated and kernel-checked each run) + correspondence"
-LEVEL_NOTE = "see findings/C04.md"
-TECHNIQUE = "Lean 4 theorems over any class table / parameter tree; decide +kernel on regenerated tables; differential testing against the running classes"
+LEVEL_TEXT = ("proof: 30 Lean theorems (no sorry; axioms propext, Quot.sound) over ANY class table and ANY parameter tree: "
+              "constructor contract => get_params returns the arguments and never raises; missing parameter => absent; fresh "
+              "estimator unfitted; guarded method on unfitted raises NotFittedError for every oracle; fit frame; sklearn/sktime "
+              "get_params/set_params (shallow and deep round trip at every depth, nested read/write of exactly one component, "
+              "component replacement, rejection of unknown names, ordering), clone (equal parameters, nothing fitted), _check_names. "
+              "Tie to the code: the class table (160 classes: constructor bodies through the MRO, fitted-state guards of 7 apply-type "
+              "methods, parameters written by fit) is regenerated from the source by an AST translator on every run and each class "
+              "summary is re-established by the kernel (decide +kernel); for the 147 importable classes the summary's predictions are "
+              "compared with the running class, and histories of get/set/clone on random compositions to depth 3 are compared with "
+              "the Lean model.")
+LEVEL_NOTE = ("decided by the regenerated tables: constructor contract, guards and fit writes of all 160 classes (13 of them only "
+              "statically). observed by correspondence only: get_params/set_params/clone behaviour of the meta-estimators, "
+              "is_fitted after fit, fit returning self. modelled, not verified: constructors of scikit-learn base classes "
+              "(assumed to store keywords under their names), expressions inside constructors (uninterpreted), which of several "
+              "simultaneous set_params errors is reported. 144 known findings (findings/C04.md).")
+TECHNIQUE = ("Lean 4: abstract interpretation of constructor traces proved sound against a concrete attribute-store semantics; "
+             "inlining stack machine for method effects with a guard scan proved sound for all oracles; mutual-recursive parameter "
+             "trees with fuel-indexed set_params; decide +kernel on tables regenerated by a Python AST translator; differential "
+             "testing (sentinel probing of constructors, unfitted / cloned-after-fit calls, random set_params histories).")
 
 FIT_ATTR, FIT_NAME = "_is_fitted", "fit"
 
@@ -1203,7 +1219,7 @@ def gen_cases(tier, rng):
         off = rng.randrange(8)
         ex = [c for i, c in enumerate(ex) if i % 8 == off]
     cases.extend(ex)
-    n = 500 if tier == "quick" else 25000
+    n = 500 if tier == "quick" else 80000
     for i in range(n):
         g = Gen(rng, pool)
         depth = rng.choice([1, 2, 2, 3, 3])
